@@ -151,9 +151,22 @@ theorem label_matches_state_partial (eng : Eng) (log : List Entry) (n : Nat) (hn
     (createSnapshot eng 0 (replica log n)).labelIdx = n := by
   simp [createSnapshot, replica_la log n hn]
 
-/-- Installing sets `last_applied` to the label and the contents to the snapshot's, whatever the node held. -/
+/-- Installing replaces the FULL state — contents and TTL (lease) table — by the snapshot's, whatever the
+node held before (in particular its own live leases are gone), and sets `last_applied` to the label. -/
 theorem install_replaces_state (old : Node) (s : Snapshot) :
-    (install old s).kv = s.kv ∧ (install old s).la = s.labelIdx := ⟨rfl, rfl⟩
+    (install old s).kv = s.kv ∧ (install old s).la = s.labelIdx ∧
+      (install old s).lease = reloadLease s.lease old.now := ⟨rfl, rfl, rfl⟩
+
+/-- The installed lease table does not depend on the lease table the node held before. -/
+theorem install_forgets_old_leases (old old' : Node) (s : Snapshot) (h : old.now = old'.now) :
+    (install old s).lease = (install old' s).lease := by
+  simp [install, h]
+
+/-- A snapshot taken from a node without leases leaves the installing node without leases — so no later
+cleanup can remove anything there (`cleanupAfter` is then the identity on the contents). -/
+theorem install_empty_lease_then_cleanup (old : Node) (s : Snapshot) (hs : s.lease = []) (adv : Nat) :
+    (cleanupAfter (install old s) adv).kv = s.kv := by
+  simp [cleanupAfter, install, hs, reloadLease, eraseAll]
 
 /-! ## the label's term -/
 
@@ -176,6 +189,10 @@ theorem label_term_false_file :
   decide
 
 /-! ## Non-vacuity -/
+
+/-- receiver with a live lease for key 1, sender's table empty at snapshot time: key 1 survives the later cleanup -/
+example : get (cleanupAfter (scenario .file 0
+    [⟨1, .put 1 1 (some 3)⟩, ⟨1, .put 1 2 none⟩] 2 1).2.2 6).kv 1 = some 2 := by decide
 
 example : (3 : Nat) ≤ witnessLog.length := by decide
 example : ∀ c ∈ reapplied 2 [⟨1, .put 1 1 none⟩, ⟨1, .del 1⟩, ⟨1, .put 1 2 none⟩] 3, isWrite c = true := by
